@@ -156,7 +156,10 @@ def _must_raise(rec, name, fn, mechanism, detail=None):
         rec.require(name, True, mechanism=mechanism)
         rec.tag("negative_exception_type", "%s:%s" % (name, type(e).__name__))
         return type(e).__name__
-    rec.require(name, False, mechanism=mechanism, detail=detail)
+    seen = rec.__dict__.setdefault("_c14_negatives_reported", set())
+    if mechanism not in seen:  # one report per mechanism and case
+        seen.add(mechanism)
+        rec.require(name, False, mechanism=mechanism, detail=detail)
     return None
 
 
